@@ -28,16 +28,16 @@ type HistOpts struct {
 
 // HistResult is what a history produced.
 type HistResult struct {
-	Hist     int              `json:"hist"`
-	Seed     uint64           `json:"seed"`
-	Machine  string           `json:"machine"`
-	Policy   string           `json:"policy"`
-	Cfg      *Config          `json:"cfg"`
-	Steps    []*Step          `json:"steps"`
-	Viol     []Violation      `json:"violations"`
-	Stats    map[string]int   `json:"stats"`
+	Hist     int                 `json:"hist"`
+	Seed     uint64              `json:"seed"`
+	Machine  string              `json:"machine"`
+	Policy   string              `json:"policy"`
+	Cfg      *Config             `json:"cfg"`
+	Steps    []*Step             `json:"steps"`
+	Viol     []Violation         `json:"violations"`
+	Stats    map[string]int      `json:"stats"`
 	Seen     map[string][]string `json:"seen"`
-	StartErr string           `json:"start_err,omitempty"`
+	StartErr string              `json:"start_err,omitempty"`
 }
 
 func (g *Gen) applyBias(b string) {
@@ -51,6 +51,15 @@ func (g *Gen) applyBias(b string) {
 		g.MaxCtrs = 10
 	case "optout":
 		g.OptOuts = true
+	case "iso":
+		g.IsoBias = true
+	case "ooo":
+		g.OutOfOrder = true
+	case "optmem":
+		// opted-out containers next to memory pressure: zone widening must leave them alone
+		g.OptOuts = true
+		g.MemPressure = true
+		g.MaxCtrs = 10
 	}
 }
 
